@@ -35,6 +35,26 @@ Section ClosedLoop.
       + intros t' k' Hin' s' Hs'. apply HD; [|exact Hs'].
         cbn [loop_run]. unfold loop_step. rewrite E. right. exact Hin'.
   Qed.
+
+  (* the same with the domain required only at the instants the pacer is actually called *)
+  Fixpoint dom_along (st : Z * Z) (stalls : list Z) : Prop :=
+    match stalls with
+    | [] => True
+    | s :: tl => Dom (fst st + Z.max s 0) (snd st) /\
+                 match loop_step pace st s with Some st' => dom_along st' tl | None => True end
+    end.
+
+  Lemma loop_run_adm_calls stalls : forall st,
+    Adm (fst st) (snd st) -> dom_along st stalls ->
+    Forall (fun st' => Adm (fst st') (snd st')) (loop_run pace st stalls).
+  Proof.
+    induction stalls as [|s tl IH]; intros [t k] H0 HD; cbn [loop_run].
+    - constructor; [exact H0 | constructor].
+    - cbn [dom_along fst snd] in HD. destruct HD as [HD1 HD2]. unfold loop_step in *.
+      destruct (pace (t + Z.max s 0) k) as [w| |] eqn:E; try (constructor; [exact H0 | constructor]).
+      constructor; [exact H0|]. apply IH; [|exact HD2].
+      cbn [fst snd] in *. apply contract with (w := w); [exact HD1 | eapply Adm_mono; [exact H0 | lia] | exact E].
+  Qed.
 End ClosedLoop.
 
 (* ---- arithmetic helpers ----------------------------------------------------------------- *)
